@@ -609,6 +609,41 @@ func TestVerifC20(t *testing.T) {
 	wg.Wait()
 	rep.add("durations", int64(nDur))
 	rep.add("strings", int64(nStr))
+	// a burst: sixteen goroutines format a handful of durations of their own over and over, both styles, at the same time
+	// (what a program does that logs the same timeouts again and again); then one goroutine asks for all of them once more
+	if only == "" {
+		var hot [][]time.Duration
+		for wk := 0; wk < workers; wk++ {
+			r := rand.New(rand.NewPCG(uint64(seed)+99, uint64(wk)+1))
+			ds := []time.Duration{time.Duration(wk+1) * 36 * time.Hour, time.Duration(wk+1)*time.Second + 13*time.Microsecond, vc20randDuration(r), vc20randDuration(r)}
+			hot = append(hot, ds)
+		}
+		burst := func(wk, rounds int, local *[]uint64) {
+			for k := 0; k < rounds; k++ {
+				d := hot[wk][k%len(hot[wk])]
+				for _, frac := range []bool{false, true} {
+					text := SmartDurationStringEx(d, frac)
+					if back, err := ParseDuration(text); err != nil || back != d {
+						style := map[bool]string{false: "compact", true: "fractional"}[frac]
+						rep.viol(k, "roundtrip", "C20/roundtrip/"+style+"/while-other-goroutines-format", fmt.Sprintf("SmartDurationStringEx(%d ns, frac=%v) = %q while other goroutines format other durations; ParseDuration gives %d ns, err %v", int64(d), frac, text, int64(back), err), map[string]any{"duration_ns": int64(d), "style": style, "text": text})
+						return
+					}
+				}
+			}
+		}
+		var wg2 sync.WaitGroup
+		for wk := 0; wk < workers; wk++ {
+			wk := wk
+			wg2.Add(1)
+			go func() { defer wg2.Done(); var l []uint64; burst(wk, 60000, &l) }()
+		}
+		wg2.Wait()
+		for wk := 0; wk < workers; wk++ {
+			var l []uint64
+			burst(wk, 8, &l)
+		}
+		rep.add("burst_calls_from_sixteen_goroutines", int64(workers*60000*2))
+	}
 
 	// write the report
 	f, err := os.Create(out + ".report")
